@@ -58,6 +58,21 @@ def gen_paths(ck, cfg, mode, seed, limit=None, timeout=900):
     return r, rows, {'nodes': len(g.nodes), 'edges': g.nedges, 'paths_total': total}
 
 
+def blocked_confirmed(ck, row, maxbuf):
+    """a behaviour on which the real code stopped making progress (status blocked: 30 s without reaching the next lock
+    region while every other actor is parked) counts only if it blocks again twice when replayed alone"""
+    n = ck.cov.get('blocked_confirmations', 0)
+    if n >= 3:
+        return True        # the same cause has been confirmed three times in this run
+    for _ in range(2):
+        r = replay(ck, [row], maxbuf, shards=1)
+        if not r or r[0].get('status') != 'blocked':
+            ck.cov['slow_not_blocked'] = ck.cov.get('slow_not_blocked', 0) + 1
+            return False
+    ck.cov['blocked_confirmations'] = n + 1
+    return True
+
+
 def replay(ck, rows, maxbuf, shards=None):
     """Run mxh stream-replay over rows in parallel shards; returns list of results."""
     mxh = common.build_mxh()
